@@ -7,12 +7,12 @@ COQ_TARGETS = ["Properties/C03.vo", "Exec/DefRun.vo"]
 PROP_MODULES = ["Properties.C03"]
 HEADER = c02.HEADER
 NAMES = ["EMA", "DMA", "TMA", "DEMA", "TEMA", "RMA", "WSMA", "Integral0", "Vidya"]
-PROVED = ["EMA", "DMA", "TMA", "DEMA", "TEMA", "RMA", "WSMA", "TR", "HeikinAshi", "Integral0"]
+PROVED = ["EMA", "DMA", "TMA", "DEMA", "TEMA", "RMA", "WSMA", "TSI", "TR", "HeikinAshi", "Integral0", "ADI0"]
 RULE = c02.RULE + "; TSI: boundary and random (short,long) pairs incl. long plateaus; Vidya: one-step rule of DESIGN.md 5"
 ASSUMPTIONS = [
     "rounding link measured, not proved",
-    "theorems in Coq for: " + ", ".join(PROVED) + "; TSI, Vidya and the windowless ADI are covered by the bit-exact "
-    "model correspondence and the definition oracle only",
+    "theorems in Coq for: " + ", ".join(PROVED) + "; Vidya is covered by the bit-exact model correspondence and the one-step "
+    "oracle only (its exact-arithmetic theorem is not in the development; on binary64 it is refuted: KF-C03-vidya-residue)",
 ]
 TRUSTED_EXTRA = c02.TRUSTED_EXTRA
 
